@@ -545,8 +545,52 @@ func replayCase(c *Ctx) {
 			f(c)
 			return
 		}
-		fmt.Println("replay: this replay names a theorem or build step; re-run the check to see whether it compiles now")
+		if job, ok := replayJob(c.ReplayIn); ok {
+			out := h.RunJobsFresh([]h.Job{job}, 1)[0]
+			if b, err := hex.DecodeString(out); err == nil && len(b) > 0 {
+				out = string(b)
+			}
+			fmt.Printf("replay (%s job, in a fresh process, against the current tree):\n%s\n", job.Kind, out)
+			return
+		}
+		if cmdline, ok := c.ReplayIn["replay_cmd"].(string); ok {
+			fmt.Println("replay: run  " + cmdline)
+			return
+		}
+		fmt.Println("replay: this replay names a theorem, a correspondence or a build step; re-run the check to see whether it holds now")
 	}
 }
 
 var replayers = map[string]func(*Ctx){}
+
+// replayJob rebuilds the worker job of a recorded case.
+func replayJob(cs map[string]any) (h.Job, bool) {
+	str := func(k string) string { s, _ := cs[k].(string); return s }
+	unhex := func(a string) string {
+		b, _ := hex.DecodeString(strings.TrimPrefix(a, "x"))
+		return string(b)
+	}
+	switch cs["kind"] {
+	case "parse":
+		seed, _ := cs["seed"].(float64)
+		fa, _ := cs["fault_at"].(float64)
+		return parseJobOf(unhex(str("input_hex")), int64(seed), int(fa)), true
+	case "validate":
+		return valJob(str("query"), str("schema"), str("current")), true
+	case "valhist":
+		return h.Job{Kind: "valhist", Payload: str("payload")}, true
+	case "analysis":
+		return h.Job{Kind: "analysis", Payload: hex.EncodeToString([]byte(str("query")))}, true
+	case "purity":
+		return h.Job{Kind: "purity", Payload: hex.EncodeToString([]byte(str("query"))) + "\t" + str("data") + "\t20"}, true
+	case "reuse":
+		var ss []string
+		if l, ok := cs["states"].([]any); ok {
+			for _, x := range l {
+				ss = append(ss, fmt.Sprint(x))
+			}
+		}
+		return h.Job{Kind: "reuse", Payload: hex.EncodeToString([]byte(str("query"))) + "\t" + strings.Join(ss, ";")}, true
+	}
+	return h.Job{}, false
+}
